@@ -20,9 +20,18 @@ ordinary statement:
   (`maxMacroDepth`), instruction macro expansion likewise (`expandMacro`),
   file inclusion after 255 nested sources (`resolveAndIngest`);
 * `C14_ingest_result`: ingestion returns bytes or an error value.
-Partial by nature: (a) the parse layer's `unwrap`s rely on the shape of the pair
-tree the pest grammar produces — exercised on valid, near-valid and random texts
-against the real parser (0 panics, 0 outcome disagreements), not proved; (b) the
+* `C14_parse`: for EVERY source text the parser model (pest interpreter over the
+  regenerated grammar, then the pair-tree walk of `parse_asm` with its 24
+  `unwrap` / `unreachable!` / `assert!` sites) reaches none of those sites: the
+  interpreter is sound for a token-shape / matched-text semantics of grammar
+  expressions (`PestShape.sound`), the regenerated grammar's rules satisfy the
+  shape specification the walk relies on (`GrammarClosed.spec_closed`, rule by
+  rule), and on such trees the walk returns a value or an error (`ParseGood`);
+* `C14_ingest`: hence the whole text-to-bytes path of the model (`preprocess` and
+  `assemble`) reports no panic other than a fuel marker.
+Partial by nature: (a) the pest interpreter and the walk are MODELS of pest
+2.1.3 / `parse/*.rs`, tied to the real parser by the correspondence run on valid,
+near-valid and random texts (0 panics, 0 outcome disagreements); (b) the
 machine stack: recursion proportional to the nesting depth of an expression
 (finding D16: a 20 000-term sum) is outside any model without a stack.
 -/
@@ -30,6 +39,7 @@ import EtkVerif.Asm.Refine
 import EtkVerif.Asm.ExprLemmas
 import EtkVerif.Asm.Ingest
 import EtkVerif.Asm.FuelLemmas
+import EtkVerif.Asm.ParseTotal
 namespace EtkVerif.C14
 open Asm
 
@@ -85,5 +95,120 @@ theorem C14_ingest_result (fs : FS) (cwd : PathC) (rnd : Nat → Nat) (fuel : Na
   cases h : ingestFile fs cwd rnd fuel path with
   | ok r => exact Or.inl ⟨r, rfl⟩
   | error e => exact Or.inr ⟨e, rfl⟩
+
+/-- the parser: no `unwrap` / `unreachable!` / `assert!` site of `parse/*.rs` is reachable, whatever the text -/
+theorem C14_parse (text : List Nat) (site : String) (h : parseAsm text = .error (.panic site)) : site = "fuel" :=
+  parseAsm_panic_only_fuel text site h
+
+theorem rootNew_not_parse (fs : FS) (cwd file : PathC) (e : ParseErr) : Root.new fs cwd file ≠ .error (.parse e) := by
+  unfold Root.new
+  repeat (first | split | simp)
+
+theorem rootCheck_not_parse (fs : FS) (r : Root) (p : PathC) (e : ParseErr) : r.check fs p ≠ .error (.parse e) := by
+  unfold Root.check
+  repeat (first | split | simp)
+
+/-- `Ingest::preprocess` of any text in any file-system context, through any nesting of imports and includes: a parser
+panic outcome can only be the fuel marker of the model -/
+theorem C14_preprocess_parse (fs : FS) (cwd : PathC) (site : String) : ∀ (fuel : Nat),
+    (∀ prog text tr, preprocess fs cwd fuel prog text tr = .error (.parse (.panic site)) → site = "fuel") ∧
+    (∀ prog nodes tr, nodesLoop fs cwd fuel prog nodes tr = .error (.parse (.panic site)) → site = "fuel") ∧
+    (∀ prog path tr, resolveAndIngest fs cwd fuel prog path tr = .error (.parse (.panic site)) → site = "fuel") := by
+  intro fuel
+  induction fuel with
+  | zero => simp [preprocess, nodesLoop, resolveAndIngest]
+  | succ f ih =>
+    obtain ⟨ihp, ihn, ihr⟩ := ih
+    refine ⟨?_, ?_, ?_⟩
+    · intro prog text tr h
+      simp only [preprocess] at h
+      split at h
+      · rename_i e hp
+        simp only [Except.error.injEq, IngErr.parse.injEq] at h
+        subst h
+        exact parseAsm_panic_only_fuel text site hp
+      · exact ihn _ _ _ h
+    · intro prog nodes tr h
+      -- the tail of the loop, common to the four kinds of node
+      have tail : ∀ (ops : List RawOp) (tr' : List Event) (rest : List Node),
+          (match nodesLoop fs cwd f prog rest tr' with
+            | .error e => (.error e : Except IngErr (List RawOp × List Event))
+            | .ok (more, tr'') => .ok (ops ++ more, tr'')) = .error (.parse (.panic site)) → site = "fuel" := by
+        intro ops tr' rest h
+        split at h
+        · rename_i e hn
+          simp only [Except.error.injEq] at h
+          subst h
+          exact ihn _ _ _ hn
+        · simp at h
+      cases nodes with
+      | nil => simp [nodesLoop] at h
+      | cons n rest =>
+        cases n
+        · -- op
+          simp only [nodesLoop] at h
+          exact tail _ _ _ h
+        · -- import
+          simp only [nodesLoop] at h
+          split at h
+          · rename_i e hr
+            simp only [Except.error.injEq] at h
+            subst h
+            exact ihr _ _ _ hr
+          · exact tail _ _ _ h
+        · -- include
+          simp only [nodesLoop] at h
+          split at h
+          · rename_i e hone
+            simp only [Except.error.injEq] at h
+            subst h
+            split at hone
+            · rename_i e' hr
+              simp only [Except.error.injEq] at hone
+              subst hone
+              exact ihr _ _ _ hr
+            · simp at hone
+          · exact tail _ _ _ h
+        · -- include_hex: no source text is parsed
+          simp only [nodesLoop] at h
+          split at h
+          · rename_i e hone
+            simp only [Except.error.injEq] at h
+            subst h
+            split at hone
+            · rename_i e hroot
+              simp only [Except.error.injEq] at hone
+              subst hone
+              split at hroot
+              · simp at hroot
+              · exact absurd hroot (rootNew_not_parse _ _ _ _)
+            · split at hone
+              · rename_i e hc
+                simp only [Except.error.injEq] at hone
+                subst hone
+                exact absurd hc (rootCheck_not_parse _ _ _ _)
+              · split at hone
+                · simp at hone
+                · split at hone <;> simp at hone
+          · exact tail _ _ _ h
+    · intro prog path tr h
+      simp only [resolveAndIngest] at h
+      split at h
+      · simp at h
+      · split at h
+        · rename_i e hroot
+          simp only [Except.error.injEq] at h
+          subst h
+          split at hroot
+          · simp at hroot
+          · exact absurd hroot (rootNew_not_parse _ _ _ _)
+        · split at h
+          · rename_i e hc
+            simp only [Except.error.injEq] at h
+            subst h
+            exact absurd hc (rootCheck_not_parse _ _ _ _)
+          · split at h
+            · simp at h
+            · exact ihp _ _ _ h
 
 end EtkVerif.C14
